@@ -3,6 +3,7 @@
 package main
 
 import (
+	"bytes"
 	"encoding/json"
 	"flag"
 	"fmt"
@@ -71,6 +72,11 @@ type UnitCfg struct {
 type RenameCfg struct {
 	File  string   `json:"file"`  // repo-relative (or absolute) path
 	Funcs []string `json:"funcs"` // "Func" or "Recv.Method"
+	// Subst lists literal text substitutions applied to the overlay copy of the
+	// file (regenerated from the current source on every run), e.g. "os.Open(" ->
+	// "verifOpen(": the harness then defines verifOpen (hook, else os.Open).
+	// Every pattern must occur at least once.
+	Subst [][2]string `json:"subst"`
 }
 
 type HarnessCfg struct {
@@ -315,6 +321,12 @@ func (r *runner) overlayFor(u *UnitCfg) (map[string][]byte, error) {
 		out, err := renameFuncs(path, src, rc.Funcs)
 		if err != nil {
 			return nil, err
+		}
+		for _, sb := range rc.Subst {
+			if !bytes.Contains(out, []byte(sb[0])) {
+				return nil, fmt.Errorf("subst: pattern %q not found in %s", sb[0], path)
+			}
+			out = bytes.ReplaceAll(out, []byte(sb[0]), []byte(sb[1]))
 		}
 		ov[path] = out
 	}
